@@ -6,7 +6,7 @@ C20 — IPAM allocations respect pools, uses, reservations and affinity limits.
 * Decision functions only (named `_partial`): `allowedPools` (determinePools +
   filterPoolsByUse), the scan of `autoAssign`, the block-cap loop — for ALL pool
   layouts, requests, reservation sets, block contents and loop histories.
-* Run level: `assigned_respects_limits` — over ALL runs of `Cas.step` whose events
+* Run level: `assigned_respects_limits_guarded_partial` — over ALL runs of `Cas.step` whose events
   pass `guard20` (what the real client hands to `autoAssign`: a block of a pool
   selected for the request, the block's reserved ordinals, the affinity check under
   strict affinity — the driver checks every real event against it), every address a
@@ -156,12 +156,17 @@ theorem mem_resvOrds (ranges : List (Nat × Nat)) (base size o : Nat) :
     o ∈ resvOrds ranges base size ↔ o < size ∧ inRanges ranges (base + o) = true := by
   simp [resvOrds, List.mem_filter, List.mem_range]
 
-/-- Run level.  Take ANY run of the model from the empty store whose events pass `guard20`,
+/-- (`_guarded_partial`: the pool clause is the first conjunct of `guard20` restated and the
+strict-affinity clause is its `own` conjunct plus the `ownOk` guard of `Cas.step`; `r.allowed` is
+an arbitrary list here — its link to `allowedPools` and the link "real client ⇒ guard20" exist
+only in the driver / correspondence run.  The reservation clause has content: the CIDR →
+ordinal arithmetic `resvOrds` and the scan of `autoAssign`.)
+Run level.  Take ANY run of the model from the empty store whose events pass `guard20`,
 and any step of it by which thread `t` — executing an AutoAssign request `r` — records a new
 address (block `b`, ordinal `o`) through the scan of `autoAssign`.  Then `b` lies in a pool
 selected for the request, the address `base b + o` is in no reservation, and under strict
 affinity the block it was taken from records the requesting host as its affinity. -/
-theorem assigned_respects_limits (env : Env20) (req : Nat → Option Req)
+theorem assigned_respects_limits_guarded_partial (env : Env20) (req : Nat → Option Req)
     (r0 nb : Nat) (evs : List Ev) (s s' : St) (e : Ev)
     (hr : run (St.init r0 nb) evs = some s) (hg : guard20 env req e = true) (hs : Cas.step s e = some s')
     (t b o : Nat) (hin : (b, o) ∈ s'.got t) (hnot : (b, o) ∉ s.got t)
